@@ -161,6 +161,9 @@ func (s *Signature) Sign(rand io.Reader, signer Signer, protected cbor.RawMessag
 	if err != nil {
 		return err
 	}
+	if len(sig) == 0 {
+		return ErrEmptySignature
+	}
 
 	s.Signature = sig
 	return nil
